@@ -653,6 +653,28 @@ def judgeCall (call : Outcome F) (recall : Option (Outcome F)) : List String :=
   | .other _ => ["total:call"]
   | .bad => []
 
+/-- a request that carries a value of type `dt` into the node: `change` on a parameter holding `held`
+(`prev = some held`), or `do` on a command with argument type `dt` (`prev = none`); data `j`; `out` = what the node
+stored / handed to the command function (`ok r`), or the error it answered with.  "Validation either returns a value
+that lies inside the declared value set and denotes the value that was offered, or raises a bad-value error" -/
+def ChangeOK (dt : DType F) (j : JVal F) (prev : Option (PVal F)) : Outcome F → Prop
+  | .ok r => InSet dt r ∧ ∃ v, WireDenotes dt j v ∧ Denotes dt prev v r
+  | .bad => True
+  | .other _ => False
+
+/-- monitor of `ChangeOK`; the Python value the JSON value stands for is not observable in a request, so a
+candidate witness `hint` is passed along (what `import_value` gives) and CHECKED here -/
+def judgeChange (dt : DType F) (j : JVal F) (prev : Option (PVal F)) (hint : Option (PVal F)) (out : Outcome F) :
+    List String :=
+  match out with
+  | .ok r =>
+    (if inSetB dt r then [] else ["inset:change"]) ++
+    (match hint with
+     | some v => if wireDenotesB dt j v && denotesB dt prev v r then [] else ["denotes:change"]
+     | none => ["denotes:change"])
+  | .other _ => ["total:change"]
+  | .bad => []
+
 /-- lone-surrogate inputs and the like: outcome classes only -/
 def judgeTotal (outs : List (Outcome F)) : List String :=
   if outs.all Outcome.total then [] else ["total:unmodelled-input"]
